@@ -263,7 +263,7 @@ def boundsconstraints(h):
                     and bool(calls[0][1].get('symbolic')) == bool(sy) and bool(calls[0][1].get('clip')) == bool(cl)))
 
 
-@contract('C02/constraints.boundsconstrain/impose_bounds-mode', ['C02', 'C03', 'C16'], 'mystic/constraints.py::boundsconstrain', native=False)
+@contract('C02/constraints.boundsconstrain/impose_bounds-mode', ['C02', 'C03', 'C16', 'C13'], 'mystic/constraints.py::boundsconstrain', native=False)
 def boundsconstrain(h):
     """symbolic=False: the constraint is impose_bounds({i: (min[i], max[i])}, clip=clip) around the identity -- every
     coordinate gets its own interval, in order, in the clip mode asked for"""
